@@ -18,14 +18,22 @@ import (
 func TestVerifC04(t *testing.T) {
 	gin.SetMode(gin.ReleaseMode)
 	mgr := vC04Manager()
-	addr := vC04FreeAddr()
-	pp := &PPROF{
-		Address: addr, TrustedProxies: vC04TrustedProxies(),
-		ReadTimeout: conf.Duration(20 * time.Second), WriteTimeout: conf.Duration(20 * time.Second),
-		AuthManager: mgr, Parent: test.NilLogger,
+	var addr string
+	var pp *PPROF
+	var ierr error
+	for try := 0; try < 4; try++ { // the scratch port may be taken between probing and listening
+		addr = vC04FreeAddr()
+		pp = &PPROF{
+			Address: addr, TrustedProxies: vC04TrustedProxies(),
+			ReadTimeout: conf.Duration(20 * time.Second), WriteTimeout: conf.Duration(20 * time.Second),
+			AuthManager: mgr, Parent: test.NilLogger,
+		}
+		if ierr = pp.Initialize(); ierr == nil {
+			break
+		}
 	}
-	if err := pp.Initialize(); err != nil {
-		t.Fatal(err)
+	if ierr != nil {
+		t.Fatal(ierr)
 	}
 	defer pp.Close()
 	vC04Run(t, vC04Spec{Server: "pprof", Base: "http://" + addr, Routes: vC04Routes(pp.httpServer.Handler), Share: 15}, mgr)
